@@ -25,8 +25,10 @@ LEVEL_TEXT = ('Kernel-checked theorems (Props/C10.v) about the Gallina model of 
               'checks on the public routines: orthonormal-or-zero columns, T B_c = B, and for every prolongation smoother '
               '(Jacobi, Richardson, filtered Jacobi, energy minimisation with cg / cgnr / gmres, root-node) the preserved '
               'product P B_c = B, pattern containment, the Jacobi/Richardson polynomial, identity rows at root nodes.')
-LEVEL_NOTE = ('The constraint-projection / energy-minimisation '
-              'invariants are decided by the oracle, not by a theorem.  Complex candidates: oracle only.')
+LEVEL_NOTE = ('Constraint projection: the algebraic reason P B_c is preserved is a theorem (C10_constrained_update_preserves_candidates, any '
+              'commutative ring: a row U_i - (U_i B_i) X_i B_i^H with X_i (B_i^H B_i) = 1 annihilates the candidates); that compute_BtBinv '
+              'returns such X_i and that satisfy_constraints performs that projection inside the pattern is decided by the oracle '
+              '(constraint_projection) on the working tree, not by a kernel model.  Krylov energy minimisation: oracle only.  Complex candidates: oracle only.')
 RULE = ('random partitions of 4-12 nodes into aggregates (with unaggregated rows), K1 in 1..3, K2 in 1..3, candidates incl. '
         'locally rank-deficient and zero columns: amg_core.fit_candidates == FitCand model (PrimFloat, bit-exact); public '
         'fit_candidates real/complex; SA / root-node hierarchies with every smoothing variant, keep=True: P B_c == B, '
@@ -35,7 +37,7 @@ RULE += (' '
          'Polynomial identity P = (I - cK)^d T fitted for Jacobi (diagonal, block, local weighting) and Richardson, degrees 1-3, CSR and BSR, incl. a BSR problem rescaled per unknown (diagonal blocks not multiples of the identity).')
 THOROUGH_ROUNDS = 8
 TRUSTED = ['NumPy/SciPy on the oracle side', 'spectral-radius estimate inside the Jacobi/Richardson smoothers (value read back, not trusted)']
-PARTIAL = ['constraint projection, energy minimisation invariants, root-node identity rows: oracle only']
+PARTIAL = ['constraint projection: theorem about the formula, kernel tied by oracle only (no Gallina model of satisfy_constraints_helper)', 'energy minimisation invariants, root-node identity rows: oracle only']
 HEADER = ('From Coq Require Import ZArith List PrimFloat.\nImport ListNotations.\n'
           'Require Import PV.Base.Ops PV.Model.FitCandRun.\nOpen Scope Z_scope.\n')
 I32 = np.int32
@@ -124,6 +126,7 @@ def run(ctx):
         ctx.disagree('fit_candidates kernel', case, 'FitCand model differs', out)
     smoothers(ctx)
     direct_smoother_calls(ctx)
+    constraint_projection(ctx)
 
 
 def smoothers(ctx):
@@ -352,6 +355,73 @@ def direct_smoother_calls(ctx):
                 ctx.fail('smoothing/%s/csr_matrix-differs' % tag, 'max diff %.3g' % np.abs(Pa - Pm).max(), case)
         except Exception as e:   # noqa
             ctx.fail('smoothing/%s/csr_matrix/raises' % tag, repr(e), case)
+
+
+def constraint_projection(ctx):
+    """hypothesis and conclusion of C10_constrained_update_preserves_candidates on the working tree: compute_BtBinv returns the
+    inverse of the local Gram matrix B_i^H B_i (rows whose pattern supports the candidates), and satisfy_constraints turns
+    any direction U into one with U B = 0 on those rows, touching nothing outside the pattern and leaving a direction that already
+    satisfies the constraints alone."""
+    import warnings
+    from pyamg.util.utils import compute_BtBinv
+    from pyamg.aggregation.smooth import satisfy_constraints
+    rng = ctx.sub('constraints')
+    for rep in range(30 if not ctx.thorough else 200):
+        bs = rng.choice([1, 1, 2, 3])
+        nbr, nbc = rng.choice([3, 5, 8]), rng.choice([2, 3, 4])
+        K = rng.choice([1, 2, 3, 4]) if bs > 1 else rng.choice([1, 2])
+        cplx = rep % 4 == 3
+        pat = np.array([[1 if (rng.random() < 0.6 or j == i % nbc) else 0 for j in range(nbc)] for i in range(nbr)])
+        vals = np.array([[rng.choice([1.0, -2.0, 0.5, 3.0, -0.25]) for _ in range(nbc * bs)] for _ in range(nbr * bs)]) * np.kron(pat, np.ones((bs, bs)))
+        if cplx:
+            vals = vals * (1 + 0.5j)
+        U = sp.bsr_array(sp.csr_array(vals), blocksize=(bs, bs))
+        if U.nnz == 0:
+            continue
+        B = np.array([[rng.choice([1.0, 2.0, -1.0, 0.5, 3.0]) + 0.25 * c_ + 0.125 * (r_ % 3) for c_ in range(K)] for r_ in range(nbc * bs)])
+        if cplx:
+            B = B * (1 + 0.0j) + 1j * np.array([[0.5 * ((r_ + c_) % 2) for c_ in range(K)] for r_ in range(nbc * bs)])
+        case = dict(probe='satisfy_constraints', blocksize=bs, pattern=pat.tolist(), U=[[complex(v) for v in r] for r in vals.tolist()],
+                    B=[[complex(v) for v in r] for r in B.tolist()])
+        ctx.mark(case)
+        try:
+            with warnings.catch_warnings():
+                warnings.simplefilter('ignore')
+                BtBinv = compute_BtBinv(B, U)
+                U0 = U.copy()
+                U1 = satisfy_constraints(U.copy(), B, BtBinv)
+        except Exception as e:   # noqa
+            ctx.fail('satisfy_constraints/raises', repr(e), case)
+            continue
+        ctx.case(('constraints', rep, bs, K, cplx), True)
+        ctx.count('oracle:satisfy_constraints')
+        U1d, U0d = U1.toarray(), U0.toarray()
+        okrows = []
+        for i in range(nbr):
+            cols = [j * bs + t for j in np.where(pat[i] == 1)[0] for t in range(bs)]
+            Bi = B[cols]
+            G = Bi.conj().T @ Bi
+            if len(cols) >= K and np.linalg.cond(G) < 1e8:
+                okrows.append(i)
+                if _nn(np.abs(BtBinv[i] @ G - np.eye(K)).max()) > 1e-8 * np.linalg.cond(G):
+                    ctx.fail('compute_BtBinv/not-the-inverse-of-the-local-gram-matrix', 'block row %d: |X G - I| = %.3g' % (i, np.abs(BtBinv[i] @ G - np.eye(K)).max()), case)
+                    break
+        if np.any((U1d != 0) & (np.kron(pat, np.ones((bs, bs))) == 0)):
+            ctx.fail('satisfy_constraints/outside-pattern', 'entries outside the sparsity pattern of U', case)
+        rows_ = [i * bs + t for i in okrows for t in range(bs)]
+        if rows_:
+            scale = 1 + np.abs(U0d).max() * np.abs(B).max()
+            if _nn(np.abs((U1d @ B)[rows_]).max()) > 1e-9 * scale * max(np.linalg.cond(B[[j * bs + t for j in np.where(pat[i] == 1)[0] for t in range(bs)]].conj().T @ B[[j * bs + t for j in np.where(pat[i] == 1)[0] for t in range(bs)]]) for i in okrows):
+                ctx.fail('satisfy_constraints/UB-not-zero', '|U B| = %.3g on rows whose pattern supports the constraints' % np.abs((U1d @ B)[rows_]).max(), case)
+            # a direction that satisfies the constraints is a fixed point
+            try:
+                with warnings.catch_warnings():
+                    warnings.simplefilter('ignore')
+                    U2 = satisfy_constraints(U1.copy(), B, BtBinv).toarray()
+                if _nn(np.abs(U2 - U1d)[rows_].max()) > 1e-8 * scale * 1e2:
+                    ctx.fail('satisfy_constraints/not-idempotent', 'a second projection moves the direction by %.3g' % np.abs(U2 - U1d)[rows_].max(), case)
+            except Exception as e:   # noqa
+                ctx.fail('satisfy_constraints/raises', repr(e), case)
 
 
 def search(ctx):
